@@ -1,4 +1,5 @@
 SPECIFICATION Spec
 CONSTANTS Scenarios <- ScStrict2
+          ServerStrictRule = "peer"
 INVARIANTS Emit
 CHECK_DEADLOCK FALSE
